@@ -132,10 +132,20 @@ struct World {
 
 impl World {
     fn new(mode: Mode) -> World {
-        World { mode, rig: Rig::new(mode), rf: Reference::default(), next_interval: Duration::from_secs(16) }
+        World {
+            mode,
+            rig: Rig::new(mode),
+            rf: Reference::default(),
+            next_interval: Duration::from_secs(16),
+        }
     }
     fn in_window(&self) -> bool {
-        self.rig.requests.last().map_or(false, |r| tokio::time::Instant::now().duration_since(r.sent_at).as_nanos() < WINDOW_NS)
+        self.rig.requests.last().map_or(false, |r| {
+            tokio::time::Instant::now()
+                .duration_since(r.sent_at)
+                .as_nanos()
+                < WINDOW_NS
+        })
     }
 }
 
@@ -145,9 +155,23 @@ enum Step {
     Violation(&'static str, String),
 }
 
-fn mirror(w: &World, id: IdSel, marker_allowed: bool, mode: u8, stratum: u8, kiss: Kiss) -> Option<Ans> {
+fn mirror(
+    w: &World,
+    id: IdSel,
+    marker_allowed: bool,
+    mode: u8,
+    stratum: u8,
+    kiss: Kiss,
+) -> Option<Ans> {
     let req = w.rig.req_for(id)?;
-    Some(Ans::plain(id, req.version, marker_allowed && req.marker, mode, stratum, kiss))
+    Some(Ans::plain(
+        id,
+        req.version,
+        marker_allowed && req.marker,
+        mode,
+        stratum,
+        kiss,
+    ))
 }
 
 async fn step(w: &mut World, ev: &Ev, st: &mut Local) -> Step {
@@ -168,23 +192,39 @@ async fn step(w: &mut World, ev: &Ev, st: &mut Local) -> Step {
             if must_reset {
                 let want_demob = w.rf.deny;
                 if obs.sent.is_some() {
-                    let class = if obs.acts.iter().any(|a| matches!(a, rig::Act::Reset | rig::Act::Demobilize)) {
+                    let class = if obs
+                        .acts
+                        .iter()
+                        .any(|a| matches!(a, rig::Act::Reset | rig::Act::Demobilize))
+                    {
                         "C11:sends-while-reset"
                     } else {
                         "C11:missing-reset"
                     };
                     return Step::Violation(
                         class,
-                        format!("polls answered {:?}: the source must be {} but the timer returned {:?}", w.rf.answered, if want_demob { "demobilised" } else { "reset" }, obs.acts),
+                        format!(
+                            "polls answered {:?}: the source must be {} but the timer returned {:?}",
+                            w.rf.answered,
+                            if want_demob { "demobilised" } else { "reset" },
+                            obs.acts
+                        ),
                     );
                 }
                 if want_demob && !obs.is_demobilize() || !want_demob && !obs.is_reset() {
                     return Step::Violation(
                         "C11:reset-vs-demobilize",
-                        format!("polls answered {:?}, deny seen since last usable answer: {want_demob}; timer returned {:?}", w.rf.answered, obs.acts),
+                        format!(
+                            "polls answered {:?}, deny seen since last usable answer: {want_demob}; timer returned {:?}",
+                            w.rf.answered, obs.acts
+                        ),
                     );
                 }
-                st.inc(if want_demob { "timers_demobilize" } else { "timers_reset" });
+                st.inc(if want_demob {
+                    "timers_demobilize"
+                } else {
+                    "timers_reset"
+                });
                 if w.rf.never() {
                     st.inc("resets_startup_rule");
                 } else {
@@ -195,7 +235,10 @@ async fn step(w: &mut World, ev: &Ev, st: &mut Local) -> Step {
                 if !obs.is_poll() {
                     return Step::Violation(
                         "C11:spurious-reset",
-                        format!("polls answered {:?}: the source must keep polling but the timer returned {:?}", w.rf.answered, obs.acts),
+                        format!(
+                            "polls answered {:?}: the source must keep polling but the timer returned {:?}",
+                            w.rf.answered, obs.acts
+                        ),
                     );
                 }
                 w.rf.answered.push(false);
@@ -238,7 +281,12 @@ async fn step(w: &mut World, ev: &Ev, st: &mut Local) -> Step {
             if obs.accepted() != expect_usable {
                 return Step::Violation(
                     "C11:usable-answer-classification",
-                    format!("{} (request open & in window: {live}) measurement delivered: {}, expected {}", ans.code(), obs.accepted(), expect_usable),
+                    format!(
+                        "{} (request open & in window: {live}) measurement delivered: {}, expected {}",
+                        ans.code(),
+                        obs.accepted(),
+                        expect_usable
+                    ),
                 );
             }
             if expect_usable {
@@ -252,7 +300,11 @@ async fn step(w: &mut World, ev: &Ev, st: &mut Local) -> Step {
             } else {
                 st.inc("answers_not_counted");
             }
-            Step::Ok(if obs.accepted() { "usable".into() } else { "ignored".into() })
+            Step::Ok(if obs.accepted() {
+                "usable".into()
+            } else {
+                "ignored".into()
+            })
         }
     };
     // reported missed polls
@@ -262,7 +314,11 @@ async fn step(w: &mut World, ev: &Ev, st: &mut Local) -> Step {
         if got != want {
             return Step::Violation(
                 "C11:unanswered-polls",
-                format!("polls answered {:?}: {} polls since the last usable answer, reported unanswered_polls = {got}", w.rf.answered, w.rf.missed()),
+                format!(
+                    "polls answered {:?}: {} polls since the last usable answer, reported unanswered_polls = {got}",
+                    w.rf.answered,
+                    w.rf.missed()
+                ),
             );
         }
         st.inc(match want {
@@ -293,7 +349,11 @@ fn word_events(word: &[usize]) -> Vec<Ev> {
 }
 
 fn trace_string(mode: Mode, evs: &[Ev]) -> String {
-    format!("{};{}", mode.name(), evs.iter().map(|e| e.code()).collect::<Vec<_>>().join(","))
+    format!(
+        "{};{}",
+        mode.name(),
+        evs.iter().map(|e| e.code()).collect::<Vec<_>>().join(",")
+    )
 }
 
 fn tree(ctx: &Ctx, k: usize, len: usize) {
@@ -429,7 +489,8 @@ fn fixpoint(ctx: &Ctx, mode: Mode) -> bool {
                     match step(w, ev, &mut st).await {
                         Step::NotApplicable => {}
                         Step::Violation(class, what) => {
-                            let mut evs: Vec<Ev> = hist.iter().map(|e| SEQ_ALPHA[*e as usize]).collect();
+                            let mut evs: Vec<Ev> =
+                                hist.iter().map(|e| SEQ_ALPHA[*e as usize]).collect();
                             evs.push(*ev);
                             ctx.violation(class, what, trace_string(mode, &evs));
                             cur = None;
@@ -450,7 +511,12 @@ fn fixpoint(ctx: &Ctx, mode: Mode) -> bool {
         },
         |depth, width| {
             if ctx.over_budget() {
-                ctx.cap_hit(&format!("(B) mode {}: budget used up before depth {} (frontier {}); complete below", mode.name(), depth, width));
+                ctx.cap_hit(&format!(
+                    "(B) mode {}: budget used up before depth {} (frontier {}); complete below",
+                    mode.name(),
+                    depth,
+                    width
+                ));
                 return false;
             }
             true
@@ -462,7 +528,10 @@ fn fixpoint(ctx: &Ctx, mode: Mode) -> bool {
     ctx.max("max_depth", stats.max_depth);
     ctx.note(
         &format!("fixpoint_mode_{}", mode.name()),
-        &format!("{} states, {} transitions, depth {}, fixpoint {}", stats.states, stats.transitions, stats.max_depth, stats.fixpoint),
+        &format!(
+            "{} states, {} transitions, depth {}, fixpoint {}",
+            stats.states, stats.transitions, stats.max_depth, stats.fixpoint
+        ),
     );
     stats.fixpoint
 }
@@ -485,7 +554,11 @@ fn replay(ctx: &Ctx, trace: &str) -> String {
             };
             match step(&mut w, &ev, &mut st).await {
                 Step::NotApplicable => obs.push(format!("{code}=n/a")),
-                Step::Ok(o) => obs.push(format!("{code}={o}|reach={:#010b},missed={}", w.rig.view().reach, w.rig.unanswered_polls())),
+                Step::Ok(o) => obs.push(format!(
+                    "{code}={o}|reach={:#010b},missed={}",
+                    w.rig.view().reach,
+                    w.rig.unanswered_polls()
+                )),
                 Step::Violation(class, what) => {
                     ctx.violation(class, what.clone(), trace);
                     obs.push(format!("{code}=VIOLATION {class}: {what}"));
